@@ -25,7 +25,7 @@ TInit == /\ tid \in 1..NTraces
          /\ IF Traces[tid].mode = "pixels"
             THEN /\ cfg = [H |-> Traces[tid].H, W |-> Traces[tid].W, k |-> Traces[tid].k, x |-> 0, y |-> 0]
                  /\ pc = "pixel"
-            ELSE /\ cfg = [k |-> Traces[tid].k, ds |-> Traces[tid].ds, ep |-> Traces[tid].ep,
+            ELSE /\ cfg = [k |-> Traces[tid].k, ds |-> Traces[tid].ds, ep |-> Traces[tid].ep, rm |-> Traces[tid].rm,
                            ridges |-> [i \in 1..Len(Traces[tid].ridges) |->
                                           [y |-> Traces[tid].ridges[i].y, x0 |-> Traces[tid].ridges[i].x0,
                                            x1 |-> Traces[tid].ridges[i].x1, a2 |-> Traces[tid].ridges[i].a2,
@@ -102,10 +102,21 @@ ExactLine(ln, r) ==
     IN ln.pts[1] = <<U * q0[1], U * q0[2]>> /\ ln.pts[Len(ln.pts)] = <<U * q1[1], U * q1[2]>>
 ExactLines == \E f \in Bijections : \A i \in 1..NL : ExactLine(L[i], cfg.ridges[f[i]])
 
+\* the rotation clause on its own, at its own tolerance (1 px): every line returned by detect(image, rot=k) is the
+\* un-rotation, with respect to the REAL size of the rotated image, of a line that parse() decodes from the same maps
+PL == Tr.plines
+UnrotOf(ln, pl) == /\ Len(ln.pts) = Len(pl.pts)
+                   /\ \A j \in 1..Len(ln.pts) :
+                         LET e == InvRotU(<<pl.pts[j][1], pl.pts[j][2]>>)
+                         IN Abs(ln.pts[j][1] - e[1]) <= U /\ Abs(ln.pts[j][2] - e[2]) <= U
+UnrotWithinOnePixel == /\ Len(PL) = NL
+                       /\ \A i \in 1..NL : \E j \in 1..Len(PL) : UnrotOf(L[i], PL[j])
+
 RidgeFailing == IF Tr.outcome # "ok" THEN 1
                 ELSE IF NL # Len(cfg.ridges) THEN 2                         \* exactly one line per ridge
                 ELSE IF ~OneLinePerRidge THEN 3                             \* positions / heights / outlines
                 ELSE IF ~RegionsCover THEN 4
+                ELSE IF ~UnrotWithinOnePixel THEN 7                         \* original-image coordinates within one pixel
                 ELSE IF Level = "exact" /\ (Tr.seen[1] # RotH \/ Tr.seen[2] # RotW) THEN 5
                 ELSE IF Level = "exact" /\ ~ExactLines THEN 6
                 ELSE 0
